@@ -59,11 +59,15 @@ Definition new_net (k : nkind) (nv nh na : nat) (draws : list nat) (H : bheap) :
   let n := b_next H in
   let H1 := mkBHeap ((n, mkNetObj k nv nh na []) :: b_nets H) (b_cells H) (S n) in
   (initialize_parameters n draws H1, n).
+(* the size defaults of the two constructors (tied to the source by the source-translation kernels of C20) *)
+Definition binary_nh (nv : nat) (nh : option nat) : nat :=
+  match nh with Some h => if h =? 0 then nv else h | None => nv end.                     (* `if num_hidden` *)
+Definition purif_size (nv : nat) (n : option nat) : nat :=
+  match n with Some h => h | None => nv end.                                              (* `is not None` *)
 Definition binary_new (nv : nat) (nh : option nat) :=
-  new_net Binary nv (match nh with Some h => if h =? 0 then nv else h | None => nv end) 0.  (* `if num_hidden` *)
+  new_net Binary nv (binary_nh nv nh) 0.
 Definition purif_new (nv : nat) (nh na : option nat) :=
-  new_net Purif nv (match nh with Some h => h | None => nv end)                          (* `is not None` *)
-                   (match na with Some a => a | None => nv end).
+  new_net Purif nv (purif_size nv nh) (purif_size nv na).
 
 (* state constructors, sizes path *)
 Definition of_sizes (k : skind) (nv : nat) (nh na : option nat) (d_am d_ph : list nat) (H : bheap) : bheap * bstate :=
